@@ -291,6 +291,12 @@ psRes_t psX509ParseCertData(psPool_t *pool,
             psFreeList(certDatas, pool);
             return err;
         }
+        if (current == NULL)
+        {
+            /* Not even the certificate structure could be allocated:
+               there is nothing to link into the list. */
+            continue;
+        }
         numParsed++;
         *tailp = current;
         tailp = &(current->next);
